@@ -111,7 +111,7 @@ pub fn proj(prop: &str, mode: &str, o: &J) -> J {
 }
 
 const OPS: &[&str] = &[
-    "just", "any", "oneof", "noneof", "sel", "end", "empty", "cust", "ext", "probe", "cfgjust", "cfgjustr", "then", "ithen", "theni", "delim", "padded", "group",
+    "just", "any", "oneof", "noneof", "sel", "end", "empty", "cust", "ext", "extsub", "probe", "cfgjust", "cfgjustr", "then", "ithen", "theni", "delim", "padded", "group",
     "grouparr", "or", "choice", "choicev", "ornot", "not", "andis", "rewind", "map", "to", "ignored", "filter", "trymap", "trymapw", "validate",
     "mw", "tospan", "toslice", "boxed", "lazy", "collect", "exact", "run", "foldl", "foldr", "foldlw", "foldrw", "recover", "label", "maperr",
     "memo", "rec", "recd", "ref", "let", "var", "withctx", "thenctx", "ignctx", "mapctx", "withstate", "nested", "tree", "pratt", "rep", "sep", "enum", "cfgrep", "cfgrepmin", "cfgrepmax", "cfgreptry",
